@@ -412,3 +412,52 @@ def builder_sequence(body, local):
         if not body.dominates(x.bb, y.bb) and body.loop_depth(x.bb) == body.loop_depth(y.bb) == 0:
             raise Unrecognised('builder', 'mutations of _%d in %s are not totally ordered' % (local, body.path))
     return [(c.bb, mir.method_name(c.name), [mir.canon(body.op_expr(a)) for a in c.args[1:]], body.loop_depth(c.bb), c) for c in items]
+
+
+def rpo(body):
+    """reverse post-order of the reachable non-cleanup CFG"""
+    seen = set()
+    order = []
+
+    def dfs(b):
+        stack = [(b, iter(body.succ.get(b, [])))]
+        seen.add(b)
+        while stack:
+            node, it = stack[-1]
+            adv = False
+            for s2 in it:
+                if s2 not in seen:
+                    seen.add(s2)
+                    stack.append((s2, iter(body.succ.get(s2, []))))
+                    adv = True
+                    break
+            if not adv:
+                order.append(node)
+                stack.pop()
+    dfs(0)
+    return order[::-1]
+
+
+def loop_bounds(body, bb):
+    """canonical iteration domains of the loops enclosing bb, outermost first"""
+    out = []
+    loops = [lp for lp in body.loops() if bb in lp[1]]
+    loops.sort(key=lambda lp: -len(lp[1]))
+    for h, lb, back in loops:
+        dom = None
+        for b2 in sorted(lb):
+            cs = body.call_at.get(b2)
+            if cs and cs.method == 'next' and body.dominates(b2, bb) and body.innermost_loop(b2) and body.innermost_loop(b2)[0] == h:
+                dom = peel(body.op_expr(cs.args[0]))
+                break
+        out.append(dom)
+    return out
+
+
+def read_sequence(body, is_read):
+    """ordered list of reader calls in a body: (label, callsite). Order = reverse post-order."""
+    order = {b: i for i, b in enumerate(rpo(body))}
+    reads = [cs for cs in body.calls if is_read(cs)]
+    reads.sort(key=lambda c: order.get(c.bb, 1 << 30))
+    labels = {cs.site: str(i) for i, cs in enumerate(reads)}
+    return reads, labels
